@@ -377,6 +377,10 @@ def check_sample_uniform(ctx):
             except A.PathCrash as ex:
                 ctx.violation("R01-INSIDE", c.file, qual, "sample_uniform d=%d" % d, "raises: %s" % ex, fn.lineno)
                 continue
+            except AnalysisError as ex:
+                ctx.violation("R01-INSIDE", c.file, qual, "sample_uniform d=%d" % d,
+                              "cannot establish that each coordinate is drawn between its own bounds: %s" % ex, fn.lineno)
+                continue
             order = A.Order(I.facts)
             ok = isinstance(res, list) and len(res) == d and all(isinstance(x, A.Num) for x in res)
             if ok:
